@@ -4,6 +4,7 @@
 // Case lines (one result line each):
 //   gains <dir> [what]      every gain kind (what = comma list out of eeg,ecog,meg,ip,eit,ssm,dec; default all)
 //   sweep <dir> <what> k1 k2 ...  one Geometry object, Domain::set_conductivity(k_i*sigma) in sequence, gains after each (names "<gain>@<i>")
+//   inplace <refdir> <moveddir> <what> R(9) t(3) s   geometry of refdir moved in place + Mesh::update(false), sources/sensors of moveddir
 //   ops   <dir>             the operator matrices the gains are made of (bisection: gain kind -> operator -> entry)
 //   k <op> | x1 x2 ...      one kernel call (float wire), see kern()
 // Result of gains/ops:  "<name> <status> <nlin> <ncol> <hex doubles, column major> ; <name> ..."   status as in wire.h
@@ -151,6 +152,32 @@ static std::string run_sweep(const std::string& dir,const std::string& what,cons
         o.suffix = "@"+std::to_string(step);
         compute(o,dir,what,false,geo);
     }
+    return o.s;
+}
+
+// The moved / rescaled problem produced through the API instead of through files: the geometry of <refdir> is loaded, the
+// vertices of the loaded Geometry are moved IN PLACE (x -> s*(R x)+t), Mesh::update(false) is called on every mesh (the
+// documented refresh of what depends on vertex positions only: areas, normals), and every gain is computed with the
+// sources and sensors of <moveddir> (already in the new frame).
+static std::string run_inplace(const std::string& refdir,const std::string& moveddir,const std::string& what,const std::vector<double>& m) {
+    Out o;
+    if (m.size()!=13) { o.fail("geometry",ST_OTHER); return o.s; }
+    std::unique_ptr<Geometry> geop = load_geometry(o,refdir);
+    if (!geop) return o.s;
+    Geometry& geo = *geop;
+    bool ok = false;
+    guarded(o,"inplace_move",[&]{
+        for (auto& v : geo.vertices()) {
+            const double x = v.x(), y = v.y(), z = v.z();
+            v.x() = m[12]*(m[0]*x+m[1]*y+m[2]*z)+m[9];
+            v.y() = m[12]*(m[3]*x+m[4]*y+m[5]*z)+m[10];
+            v.z() = m[12]*(m[6]*x+m[7]*y+m[8]*z)+m[11];
+        }
+        for (auto& mesh : geo.meshes())
+            mesh.update(false);
+        ok = true;
+    });
+    if (ok) compute(o,moveddir,what,false,geo);
     return o.s;
 }
 
@@ -339,10 +366,12 @@ int main(int argc,char** argv) {
     while (std::getline(in,line)) {
         std::istringstream ls(line);
         std::string cmd; ls >> cmd;
-        if (cmd=="gains" || cmd=="ops" || cmd=="sweep") {
-            std::string dir, what; ls >> dir >> what;
+        if (cmd=="gains" || cmd=="ops" || cmd=="sweep" || cmd=="inplace") {
+            std::string dir, dir2, what; ls >> dir;
+            if (cmd=="inplace") ls >> dir2;
+            ls >> what;
             std::vector<double> ks;
-            if (cmd=="sweep") { std::string t; while (ls >> t) ks.push_back(strtod(t.c_str(),nullptr)); }
+            if (cmd=="sweep" || cmd=="inplace") { std::string t; while (ls >> t) ks.push_back(strtod(t.c_str(),nullptr)); }
             std::string res;
             // watchdog: a case that hangs (e.g. the random-probe loop of is_mesh_orientations_coherent when every solid
             // angle is zeroed) kills the process; the runner attributes the crash to this case and restarts
@@ -350,7 +379,7 @@ int main(int argc,char** argv) {
             {
                 FdSilence fs;
                 Silence s;
-                try { res = (cmd=="sweep") ? run_sweep(dir,what,ks) : run_model(dir,what,cmd=="ops"); }
+                try { res = (cmd=="sweep") ? run_sweep(dir,what,ks) : (cmd=="inplace") ? run_inplace(dir,dir2,what,ks) : run_model(dir,what,cmd=="ops"); }
                 catch (...) { res = "crash 3 0 0"; }
             }
             alarm(0);
